@@ -1867,7 +1867,7 @@ class C08(HistProp):
                 "starts with an insertion or recompute and goes on with any sequence of successful insertions of such records, recomputes, "
                 "set_tid, set_rcode, set_opcode, set_response(true) and set_flags with QR ends with accepted bytes that are a fixed point of "
                 "decompression, the not-compressed flag, and every offset and EDNS field equal to a fresh parse; (v) the same for histories "
-                "that also delete non-OPT records and set their TTLs through a cursor placed with set_offset + recompute "
+                "that also delete non-OPT records and set their TTLs and owner names through a cursor placed with set_offset + recompute "
                 "(C08_histories_with_cursor, every step applicable where applied); plus frame/shape lemmas "
                 "(C08_insert_shape, C08_header_setters_keep_view); with failing steps tolerated every such history runs to the end without a "
                 "Panic outcome (C08_histories_total). Operations that move the cursor (TTL / address / name setters, deletion, "
@@ -1920,7 +1920,9 @@ class C09(HistProp):
                 "exactly that TTL replaced, without any hypothesis on names (C09_set_ttl_on_decompressed). Deletion from any such state, cursor "
                 "on a non-OPT record of any record section: a successful delete keeps the invariant, the three record lists are the old "
                 "ones with exactly that record removed, only that section's count is lowered, the flag word stays "
-                "(C09_delete_on_decompressed). Further lemmas: C09_insert_appends (bytes after a successful insert = bytes before with the record spliced at the "
+                "(C09_delete_on_decompressed). The owner-name setter from any such state, any byte string as the name: a successful "
+                "set_raw_name replaces exactly that record's owner labels by the labels the checker accepted (growing, shrinking or equal "
+                "length), every other record, the counts and the flag word stay, the invariant is kept (C09_set_name_on_decompressed). Further lemmas: C09_insert_appends (bytes after a successful insert = bytes before with the record spliced at the "
                 "end of the section, one count incremented), C09_set_ttl_frame (only 4 bytes change), C09_set_ttl_effect (on a section that reads "
                 "declaratively as records l, after set_rr_ttl t on the k-th cursor the section walk returns the views of l with the k-th TTL "
                 "replaced by t and nothing else changed, PROVIDED no owner name of the section is read through the 4 bytes written; "
